@@ -45,6 +45,24 @@ CLAIMED = {
               'near misses, every per-message trait set, and random histories on presorted_set<long,Item> and on the FieldTrait specialisation (Presence).'),
         note=('Trusted: Lean kernel; propext, Quot.sound, Classical.choice; bisection model of std::lower_bound/upper_bound; memmove/memcpy as list splice; the hash-array fast path of the generated trait sets is '
               'validated by correspondence only; harness/tables.cpp. Known finding (documented, outside the map contract): insert returns a dangling iterator after reallocation.')),
+    'C26': dict(
+        category='proof', design_ref='DESIGN.md section 7 C26',
+        technique='Lean 4 refinement theorems (induction over operation histories: MemoryPersister and FilePersister models against a map-plus-control-record specification) + differential correspondence on the real persisters under ASan',
+        text=('Kernel-checked: C26_mem and C26_file (for EVERY history of put / control put / get / control get / last / nearest-highest / range / reopen the model of MemoryPersister and of FilePersister '
+              '(index map + append-only data file with offsets) returns exactly the outputs of the specification: a map from non-zero numbers to the bytes first stored plus the latest control record), '
+              'C26_nearest / C26_nearest_zero (the nearest-highest search returns the smallest stored number in [requested,last], 0 iff there is none). Correspondence: random histories (1..200 ops, duplicates, '
+              '0, gaps, out-of-order stores, sizes 0..8192) on the real MemoryPersister and FilePersister, outputs compared with the model and with an independent Python dictionary oracle.'),
+        note=('Trusted: Lean kernel; propext, Quot.sound, Classical.choice; std::map as association list with unique keys; POSIX lseek/read/write as atomic steps; harness/store.cpp; '
+              'nearest-highest and range are exercised with requested >= 1 (0 is the control key; handle_resend_request never asks for 0); BDB/memcache/hiredis persisters are not compiled in this build and are out of scope.')),
+    'C27': dict(
+        category='proof', design_ref='DESIGN.md section 7 C27',
+        technique='Lean 4 invariant proof over all histories x all crash points (write budget) of a syscall-level model of FilePersister (two files as byte lists, reopen = index replay) + differential correspondence with interposed write() failing after k completed calls, every crash point of every generated history',
+        text=('Kernel-checked: C27_crash_safe (for every history that starts with a control store and every crash point k = number of completed write() calls: after reopen every message whose store completed is returned '
+              'byte-identical, no number returns bytes never stored for it, and the control record is the last completed one), C27_further_stores (the reopened store satisfies the same invariant for every further history, so the '
+              'statement holds again after any later crash), reopen_safe, and the witness theorem of the known finding C27_finding_message_before_control. Correspondence: histories of 1..6 (quick) / 1..9 (thorough) stores, EVERY crash '
+              'point, on the real FilePersister with write() interposed; read-back compared with the model and with an independent oracle of the property.'),
+        note=('Trusted: Lean kernel; propext, Quot.sound, Classical.choice; crash model = death between completed write() calls as stated by the property (no torn writes / fsync / page cache); a crash is realised by failing all later '
+              'writes, destroying the object and reopening; harness/store.cpp. KNOWN FINDING (known_findings.json): a message stored before any control record loses its index slot (record 0) to the first control store.')),
 }
 
 PENDING_REASON = 'not yet covered: the Lean model and correspondence harness for this property have not been built in this framework yet (see DESIGN.md section 7 for the plan); no other technique is substituted'
